@@ -226,7 +226,7 @@ def run_units(tag, harnesses, per_harness_timeout, jobs=8, keep=False):
     return results, info
 
 
-def counterexample(root, harness, timeout=900):
+def counterexample(root, harness, timeout=480):
     """Re-runs one failing harness sequentially with concrete playback; returns the text after the results."""
     extra = ["-Z", "concrete-playback", "--concrete-playback=print"]
     sym = find_drop_glue_symbol(root)
